@@ -493,6 +493,7 @@ fn drivers_for(tier: Tier, world: &Arc<World>, first: &Arc<World>) -> Vec<(Drive
             (Driver { label: "2 threads x 1 short analysis".into(), world: w(), jobs: vec![t(Mode::A, &["二千xyz"]), t(Mode::C, &["1,0だ"])] }, vec![0, 1, 2]),
             (Driver { label: "2 threads, katakana runs of different length".into(), world: w(), jobs: vec![t(Mode::C, &["アイアイウ"]), t(Mode::C, &["京都に行った"])] }, vec![0, 1, 2]),
             (Driver { label: "2 threads, first use of a system-only dictionary".into(), world: first.clone(), jobs: vec![t(Mode::C, &["か゛ｳﾞ三"]), t(Mode::A, &["は゜アー"])] }, vec![0, 1, 2]),
+            (Driver { label: "3 threads, bracketed readings and different scripts".into(), world: w(), jobs: vec![t(Mode::C, &["京都（きょうと）に"]), t(Mode::C, &["東(ひがし)a1"]), t(Mode::A, &["カタカナ123abc"])] }, vec![0, 1]),
         ],
         Tier::Thorough => vec![
             (Driver { label: "2 threads x 2 analyses".into(), world: w(), jobs: vec![t(Mode::A, &["東京都に行く二千三百円", "カタカタア(あ)"]), t(Mode::C, &["1,000円㍿東京府", "すだちxag-2f"])] }, vec![0, 1, 2]),
@@ -500,6 +501,7 @@ fn drivers_for(tier: Tier, world: &Arc<World>, first: &Arc<World>) -> Vec<(Drive
             (Driver { label: "2 threads, same text".into(), world: w(), jobs: vec![t(Mode::C, &["東京都(とうきょうと)に1,234円xy"]), t(Mode::C, &["東京都(とうきょうと)に1,234円xy"])] }, vec![0, 1, 2]),
             (Driver { label: "2 threads, katakana runs of different length".into(), world: w(), jobs: vec![t(Mode::C, &["アイアイウとカタ"]), t(Mode::C, &["京都に行った"])] }, vec![0, 1, 2]),
             (Driver { label: "3 threads, first use of a system-only dictionary".into(), world: first.clone(), jobs: vec![t(Mode::C, &["か゛ｳﾞ三"]), t(Mode::A, &["は゜アー"]), t(Mode::B, &["二千(に)"])] }, vec![0, 1, 2]),
+            (Driver { label: "3 threads, bracketed readings and different scripts".into(), world: w(), jobs: vec![t(Mode::C, &["京都（きょうと）に行く"]), t(Mode::C, &["東(ひがし)a1"]), t(Mode::A, &["カタカナ123abc"])] }, vec![0, 1, 2]),
         ],
     }
 }
@@ -508,6 +510,8 @@ fn drivers_for(tier: Tier, world: &Arc<World>, first: &Arc<World>) -> Vec<(Drive
 /// newly loaded dictionary.  A monitor, not an enumeration: a mismatch it reports is a real
 /// execution of the real code, silence proves nothing.  Under ThreadSanitizer (thorough tier) it
 /// also reports unsynchronised accesses the cooperative scheduler cannot see.
+const FREE_RUN_REPEATS: usize = 25;
+
 pub fn free_rounds(tier: Tier, rounds: usize) -> Result<u64, String> {
     let world = concurrency_world();
     let first = first_use_world();
@@ -522,12 +526,22 @@ pub fn free_rounds(tier: Tier, rounds: usize) -> Result<u64, String> {
             for j in d.jobs.iter().cloned() {
                 let dict = dict.clone();
                 let gate = gate.clone();
+                let want = expected[hs.len()].clone();
                 hs.push(std::thread::spawn(move || {
                     gate.fetch_add(1, Ordering::AcqRel);
                     while gate.load(Ordering::Acquire) < n {
                         std::hint::spin_loop();
                     }
-                    run_job(&dict, &j)
+                    // the first analyses race on whatever the dictionary builds on first use; the
+                    // repetitions keep the threads inside the library at the same time for longer
+                    let mut r = run_job(&dict, &j);
+                    for _ in 0..FREE_RUN_REPEATS {
+                        if r != want {
+                            break;
+                        }
+                        r = run_job(&dict, &j);
+                    }
+                    r
                 }));
             }
             for (i, h) in hs.into_iter().enumerate() {
